@@ -220,40 +220,43 @@ def model_text(model, st=None, extra_sections=None):
 
 # ------------------------------------------------------------------ API objects
 
-def api_callable(node, tables=None):
-  """Compose the node through the Python API (no potable involved)."""
+def api_callable(node, tables=None, leafwrap=None):
+  """Compose the node through the Python API (no potable involved).
+  leafwrap(callable, node) may wrap every leaf (form, table, buck4, py) - used by spies."""
   import atsim.potentials as ap
   from atsim.potentials import potentialforms as pf
   k = node["k"]
+  lw = (lambda f: leafwrap(f, node)) if leafwrap else (lambda f: f)
+  rec = lambda n: api_callable(n, tables, leafwrap)
   if k == "form":
-    return getattr(pf, node["name"])(*node["p"])
+    return lw(getattr(pf, node["name"])(*node["p"]))
   if k in ("sum", "product", "pow"):
     fn = {"sum": ap.plus, "product": ap.product, "pow": ap.pow}[k]
-    cs = [api_callable(a, tables) for a in node["a"]]
+    cs = [rec(a) for a in node["a"]]
     out = cs[0]
     for c in cs[1:]:
       out = fn(out, c)
     return out
   if k == "ranges":
-    defs = [ap.Multi_Range_Defn(m, float(s), api_callable(sub, tables)) for m, s, sub in node["parts"]]
+    defs = [ap.Multi_Range_Defn(m, float(s), rec(sub)) for m, s, sub in node["parts"]]
     return ap.create_Multi_Range_Potential_Form(*defs)
   if k == "spline":
     from atsim.potentials.spline import SplinePotential, Buck4_SplinePotential
-    start = api_callable(node["start"], tables)
-    end = api_callable(node["end"], tables)
+    start = rec(node["start"])
+    end = rec(node["end"])
     if node["kind"] == "exp_spline":
       return SplinePotential(start, end, node["rd"], node["ra"])
     return Buck4_SplinePotential(start, end, node["rd"], node["ra"], node["rmin"])
   if k == "buck4":
-    return pf.buck4(*node["p"])
+    return lw(pf.buck4(*node["p"]))
   if k == "table":
     from atsim.potentials.tableforms import Cubic_Spline_Table_Form
     t = [t for t in tables if t["name"] == node["name"]][0]
-    return Cubic_Spline_Table_Form(list(t["x"]), list(t["y"]))
+    return lw(Cubic_Spline_Table_Form(list(t["x"]), list(t["y"])))
   if k == "py":
-    return py_callable(node)
+    return lw(py_callable(node))
   if k == "trans":
-    inner = api_callable(node["f"], tables)
+    inner = rec(node["f"])
     x = node["x"]
     f = lambda r: inner(r + x)
     if hasattr(inner, "deriv"):
